@@ -699,6 +699,10 @@ def run(prog: Program, rep: Report, tier: str) -> None:
     nondeterminism(prog, rep)
     clock_access(prog, rep)
     fields_independent_of_particles(prog, rep)
+    from ..share import share
+
+    share(prog, rep, "C06", ("R06.6",), "R14.8", "the row of a particle does not depend on deaths of other particles: compactification only under the sparse layout", 1, only=lambda o: "compactif" in o.construct or "call site" in o.construct)
+
 
 
 from ..selftest import Mut  # noqa: E402
@@ -726,7 +730,9 @@ AUDIT = [
     Mut("forcing-absolute-time", RO, '        step = self.modules["time"].step\n\n        # Local depth level', '        step = self.modules["time"].time2step(self.modules["time"].time)\n\n        # Local depth level', rule="R14.4"),
     Mut("forcing-skip-when-empty", RO, "        # Read from config?\n        interpolate_velocity_in_time = True", "        if len(X) == 0:\n            return\n        interpolate_velocity_in_time = True", rule="R14.5"),
     Mut("forcing-increment-if-particles", RO, "            if interpolate_velocity_in_time:\n                self.fields[\"u\"] += self.fields[\"dU\"]", "            if interpolate_velocity_in_time and len(X) > 0:\n                self.fields[\"u\"] += self.fields[\"dU\"]", rule="R14.5"),
-    Mut("benign-compactify-early", MO, "        self.release.update()\n        self.force.update()\n\n        # self.state.compactify()", "        self.release.update()\n        self.state.compactify()\n        self.force.update()\n\n        # self.state.compactify()", expect="silent"),
+    # compactifying before the forcing update repairs the cache cross-talk (R14.1) but, done for both layouts,
+    # shifts the rows of the dense output when another particle dies: a violation of R14.8
+    Mut("compactify-early-both-layouts", MO, "        self.release.update()\n        self.force.update()\n\n        # self.state.compactify()", "        self.release.update()\n        self.state.compactify()\n        self.force.update()\n\n        # self.state.compactify()", rule="R14.8"),
     Mut("clock-seeds-rng", "ladim/main.py", "    logger.info(\"Cleaning up\")\n    model.finish()", "    np.random.seed(wall_clock_start.microsecond)\n    logger.info(\"Cleaning up\")\n    model.finish()", rule="R14.3"),
     Mut("clock-through-attribute", TR, "        self.rng = np.random.default_rng()\n", "        import time\n        self._t0 = time.time()\n        self.rng = np.random.default_rng(int(self._t0))\n", rule="R14.3"),
     Mut("clock-decides-work", MO, "        self.release.update()\n        self.force.update()\n\n        # self.state.compactify()", "        import time\n        t = time.time()\n        self.release.update()\n        if t % 2 < 1:\n            self.force.update()\n\n        # self.state.compactify()", rule="R14.3"),
